@@ -182,6 +182,11 @@ func (a *Analysis) CheckC19(rep *Report) {
 				return
 			}
 			visited[fn] = true
+			if fn.Parent() != nil {
+				// a function literal (e.g. the body handed to a withLock helper) runs as part of the function it is written in
+				climb(fn.Parent())
+				return
+			}
 			exported := fn.Object() != nil && fn.Object().Exported() && fn.Signature.Recv() == nil
 			if exported || len(allCallers[fn]) == 0 || isInitFunc(fn) {
 				if !isInitFunc(fn) {
@@ -861,7 +866,7 @@ func (a *Analysis) immutableTable(g *ssa.Global) bool {
 }
 
 func (a *Analysis) CheckC20(rep *Report, tier string) {
-	rep.Explanation = "V1: every package-level variable of the module is enumerated together with every instruction that writes it or memory reachable from it (stores, map updates, deletes through values derived from the variable), and the writing functions are classified. V2: no function reachable in the call graph (CHA in the quick tier, VTA in the thorough tier) from any Encode/Decode method, table lookup or codec primitive contains such a write, starts a goroutine, touches a channel or sync.Pool; package state may be read only if all its writers are start-up functions (package initialisers, init, registrars called only from init) or – for the checksum registry – under its read lock (C19). V3: every registered factory returns a fresh allocation (no shared body object). V4: no package-level variable holds a buffer or a message. With the library model's thread-safety entries, calls on disjoint objects then share no mutable memory: race-free and equal to the sequential results for every interleaving."
+	rep.Explanation = "V1: every package-level variable of the module is enumerated together with every instruction that writes it or memory reachable from it (stores, map updates, deletes through values derived from the variable), and the writing functions are classified. V2: no function reachable in the call graph (VTA over a CHA seed) from any Encode/Decode method, table lookup or codec primitive contains such a write, starts a goroutine, touches a channel or sync.Pool; package state may be read only if all its writers are start-up functions (package initialisers, init, registrars called only from init) or – for the checksum registry – under its read lock (C19). V3: every registered factory returns a fresh allocation (no shared body object). V4: no package-level variable holds a buffer or a message. With the library model's thread-safety entries, calls on disjoint objects then share no mutable memory: race-free and equal to the sequential results for every interleaving."
 	rep.Trusted = append(trustedBase(), "standard-library functions reachable from the codecs (encoding/binary, bytes, io, fmt, errors, hash/crc32, sync) are safe when called concurrently on disjoint arguments")
 	rep.Exhaustive = true
 	gf := a.globalFacts()
@@ -944,10 +949,11 @@ func (a *Analysis) CheckC20(rep *Report, tier string) {
 	cgKind := "CHA"
 	chaG := cha.CallGraph(a.P.Prog)
 	cg = chaG
-	if tier == "thorough" {
-		cg = vta.CallGraph(a.P.AllFuncs, chaG)
-		cgKind = "VTA"
-	}
+	// (CHA resolves a call of a func() value – e.g. the body handed to a withLock helper – to every function of that
+	// signature in the program, package initialisers included; VTA follows the values that actually flow there)
+	_ = tier
+	cg = vta.CallGraph(a.P.AllFuncs, chaG)
+	cgKind = "VTA"
 	var roots []*ssa.Function
 	for _, ct := range a.U.Types {
 		roots = append(roots, ct.Encode, ct.Decode)
